@@ -120,3 +120,26 @@ PLAN["C11"] = {
     ],
     "scope_note": "Verus: fill_one/fill_zero unbounded. Kani: complete per size for LutN 0..12 and Lut 0..14, k and count masks over all of usize.",
 }
+
+
+PLAN["C08"] = {
+    "level": "proof",
+    "technique": "Verus contract on the real next_inplace (all n < 64: no overflow, wf preserved, carry chain) + Kani contract triples on the real cmp / next_inplace kernels per length, on Ord/PartialOrd/Eq of Lut and LutN per size, and on one step of the real iterators from an arbitrary (overlay-constructed) state, against a big-number oracle",
+    "level_text": "cmp is proved per table length 1..256 to be the comparison of the tables as unsigned numbers with the last word most significant (plus antisymmetry/transitivity on symbolic pairs/triples); Ord for Lut orders by number of variables first; next_inplace is proved by Verus for all n (no overflow, well-formedness, carry chain up to the cut) and per length by Kani to be exactly the numeric successor including the words above the cut; each iterator step yields the current table and moves to its successor, and complete runs for n <= 2 (thorough: 3) enumerate 0,1,2,... and then stop.",
+    "level_note": "Trusted: Verus/Z3/vstd, Kani/CBMC, rustc. The induction from 'each step is the successor' to 'the run enumerates every function once in increasing order' for n >= 3 (thorough: 4) is a paper step (DESIGN 5, C08). The hex-string order statement follows from C09's fixed-width format (paper, one line).",
+    "verus_units": ["kernels"],
+    "kani_units": ["spec_ops.rs", "c08_kernels.rs", "c08_lut.rs", "c08_static.rs"],
+    "kani_filters": {"quick": ["c08q_"], "thorough": ["c08t_"]},
+    "kani_scope": {r"_run_": "bounded(complete run of the iterator for this n only)", r"_k_": "complete(kernel, fixed length: all contents)", r"_s_": "complete(LutN, fixed N: all tables)", r"_d_": "complete(Lut, fixed n: all tables)"},
+    "harness_timeout": {"quick": 600, "thorough": 3600},
+    "functions": ["operations::cmp", "operations::next_inplace", "Ord/PartialOrd/PartialEq for Lut", "Ord/PartialOrd/PartialEq for StaticLut",
+                  "LutIterator::next", "StaticLutIterator::next", "Lut::all_functions", "StaticLut::all_functions"],
+    "twins": {
+        "next_inplace": {"filters": ["c08q_k_next", "c08t_k_next"], "complete": True},
+    },
+    "assumptions": _VERUS_ASSUMED + [
+        "paper step: induction over the successor contract gives the full enumeration for n beyond the complete runs (n <= 2 quick, n <= 3 thorough)",
+        "hex-string order agreement rests on C09 (fixed width, most significant digit first)",
+    ],
+    "scope_note": "Verus: next_inplace unbounded (without the frame above the cut). Kani: complete per length 1..256 (cmp, next), per size LutN 0..12 / Lut 0..14.",
+}
